@@ -130,6 +130,23 @@ type objInfo struct {
 
 var objs []objInfo
 
+var treeFlat = map[string]string{}
+
+func flattenNodes(prefix string, nodes []*object.Node) string {
+	var b strings.Builder
+	for _, n := range nodes {
+		if n == nil {
+			continue
+		}
+		if len(n.Children) > 0 {
+			b.WriteString(flattenNodes(prefix+n.Name+"/", n.Children))
+		} else {
+			b.WriteString(prefix + n.Name + "=" + hex.EncodeToString(n.Hash) + ";")
+		}
+	}
+	return b.String()
+}
+
 func loadAll(c caseT) {
 	atomic.StoreInt64(&caseStart, time.Now().UnixNano())
 	curCase.Store(c)
@@ -192,6 +209,12 @@ func loadAll(c caseT) {
 					if err == nil && t != nil {
 						_ = t.String()
 						object.GetNode(t.Children, "d/x")
+						// a tree that loads is the tree that was stored, all the way down
+						if want, ok := treeFlat[o.id]; ok {
+							if have := flattenNodes("", t.Children); have != want {
+								report("damaged-object-not-returned", "NewTree", c, "NewTree(%s) succeeded but lists %q; the intact repository lists %q", o.id, have, want)
+							}
+						}
 					}
 				})
 			case object.CommitObject:
@@ -323,6 +346,18 @@ func main() {
 		i := bytes.IndexByte(all, 0)
 		sp := bytes.IndexByte(all, ' ')
 		objs = append(objs, objInfo{id: strings.ReplaceAll(strings.TrimPrefix(rel, "objects/"), "/", ""), kind: string(all[:sp]), data: all[i+1:], path: rel})
+	}
+	// what every tree lists in the intact repository (read with the implementation itself before anything is damaged)
+	for _, o := range objs {
+		if o.kind != "tree" {
+			continue
+		}
+		h, _ := hex.DecodeString(o.id)
+		if got, err := object.GetObject(root, sha.SHA1(h)); err == nil {
+			if t, err := object.NewTree(root, got); err == nil && t != nil {
+				treeFlat[o.id] = flattenNodes("", t.Children)
+			}
+		}
 	}
 	n := 0
 	mine := func() bool { n++; return n%nshards == shard }
